@@ -17,7 +17,7 @@ for f in (0, 1, 2):
                       "bounds": "2-word bitmaps (+tail), buffer length 0..40, pieces of 0..6 characters"}},
         env=["vp_alloc.c"], units=[], stubs=["hwloc_snprintf: contract stub (k-th piece needs an arbitrary r_k characters; conforming truncation) (on this platform hwloc_snprintf is the libc snprintf)"])
 TRUE = dict(env=["vp_alloc.c", "vp_libc.c"], stubs=["vsnprintf/strtoul: env/vp_libc.c models"])
-UW = {"vp_strto.0": 4, "vp_strto.1": 20}
+UW = {"vp_strto.0": 10, "vp_strto.1": 20}
 def bt(f, wmask, cap, extra=None, bounds=""):
     d = {"FMT": f, "NW": 1, "CAP": cap, "VP_MEM_K": 48}
     if wmask: d["WMASK"] = wmask
@@ -35,4 +35,16 @@ for f in (2, 0, 1):
         return {"defines": d, "unwind": 28 if stable else 12, "unwindset": UW, "bounds": "every NUL-terminated string of <= %d arbitrary non-NUL bytes in a %d-byte object; destination pre-state arbitrary" % (l, l + 1)}
     add("parse_" + FN[f], "h_parse", SCN[f] + ["strtoul (model)", "strchr", "strncmp"], {"quick": pt(4, False), "thorough": pt(6, False)}, checks="safety+", cost=30, **TRUE)
     add("parse_stable_" + FN[f], "h_parse", SCN[f] + PRN[f], {"quick": pt(2, True), "thorough": pt(3, True)}, cost=40, **TRUE)
-OUTSIDE = ["bitmaps with more than 2 explicit words", "texts longer than CAP", "locale effects", "allocation failure"]
+# ---- tier policy after measuring (build round): what concludes inside the budget is core, the rest is stretch (non-core, thorough only)
+for h in HARNESSES:
+    n = h["name"]
+    if n.startswith("asprintf_") or n in ("roundtrip_list", "parse_stable_hwloc", "parse_stable_list") or n.startswith("cursor_true_"):
+        h["core"] = False; h["tiers"] = {"thorough": dict(h["tiers"].get("thorough", h["tiers"].get("quick")), timeout=900)}; h["mem_gb"] = 8      # symbolic-size blocks / solver memory: no verdict
+    elif n in ("cursor_abstract_list", "roundtrip_hwloc", "parse_stable_taskset"):
+        h["tiers"] = {"thorough": dict(h["tiers"]["quick"], timeout=4000)}                                     # concludes in 7-10 min: thorough tier with the measured bounds
+    elif n == "parse_list":
+        q = dict(h["tiers"]["quick"]); q["defines"] = dict(q["defines"], L=3, ALLOC=16); q["unwind"] = 20; q["bounds"] = "every NUL-terminated string of <= 3 arbitrary non-NUL bytes (numbers up to 999: destination of 16 words, growth is C03's subject)"
+        h["tiers"] = {"thorough": dict(q, timeout=900)}; h["core"] = False; h["mem_gb"] = 8      # range setting with symbolic bounds over 16 words: no verdict in 6 min
+    elif n in ("parse_hwloc", "parse_taskset", "roundtrip_taskset", "cursor_abstract_hwloc", "cursor_abstract_taskset"):
+        h["tiers"] = {"quick": h["tiers"]["quick"], "thorough": dict(h["tiers"]["quick"]) if n.startswith(("roundtrip", "cursor")) else h["tiers"]["thorough"]}
+OUTSIDE = ["the three *_asprintf functions and the list-format round trip (blocks of symbolic size / solver memory: stretch harnesses, no verdict)", "bitmaps with more than 2 explicit words", "texts longer than CAP", "locale effects", "allocation failure"]
